@@ -88,17 +88,20 @@ def check_producers(repo, model: FsmModel, pm: ProviderModel, rep):
     mod = pm.mod
     produced = set()
     sites = {}
-    funcs = ['__init__'] + [m for m in pm.cls.methods if m not in ('__init__',)]
-    # analyse each method on its own (helpers not inlined) so every append site is seen once
-    for name in funcs:
-        f = pm.cls.methods[name]
-        has_append = any(isinstance(n, ast.Call) and isinstance(n.func, ast.Attribute) and n.func.attr in ('append', 'appendleft')
-                         and attr_chain(n.func.value) == ('self', 'event') for n in ast.walk(f.node))
-        if not has_append:
-            continue
+    # every physical append site in the class
+    all_sites = {}
+    for mname, f in pm.cls.methods.items():
+        for n in ast.walk(f.node):
+            if isinstance(n, ast.Call) and isinstance(n.func, ast.Attribute) and n.func.attr in ('append', 'appendleft') \
+                    and attr_chain(n.func.value) == ('self', 'event'):
+                all_sites[(mname, n.lineno)] = f
+    # analyse the constructor and the three producers with their helpers inlined, so that an append inside a
+    # helper is judged with the conditions of the path that reaches it
+    from ..excmodel import node_raises
+    for name in ['__init__'] + list(PRODUCERS):
+        f = pm.method(name)
         rep.analysed(f)
-        from ..excmodel import node_raises
-        c = pm.client(name, inline_helpers=False,
+        c = pm.client(name, inline_helpers=True,
                       raises_of=lambda node, cl, st: node_raises(node, lambda e: cl.term(e, st, heap_ext=False)))
         finals = c.final_states(c.run(empty_state()))
         for s, how in finals:
@@ -106,7 +109,7 @@ def check_producers(repo, model: FsmModel, pm: ProviderModel, rep):
                 if ev.kind != 'append':
                     continue
                 evname = appended_event(ev, model, repo, mod)
-                site = (name, ev.line)
+                site = (ev.fn.rsplit('.', 1)[-1], ev.line)
                 d = sites.setdefault(site, {'evt': evname, 'arg': ev.args[0] if ev.args else '', 'problems': set(), 'paths': 0})
                 d['paths'] += 1
                 conds = ev.conds
@@ -164,6 +167,10 @@ def check_producers(repo, model: FsmModel, pm: ProviderModel, rep):
                         d['problems'].add('EVT_19 appended outside the unknown-type / decode-failure branch')
                 else:
                     d['problems'].add('%s is appended as a constant; the standard ties it to a PDU or primitive' % evname)
+    for (mname, line), f in sorted(all_sites.items()):
+        if (mname, line) not in sites:
+            rep.bad('C05.G3', 'dulprovider:DULServiceProvider.%s:append@unreached' % mname, f.loc(),
+                    'an event is queued at line %d by code that is not reached from the constructor or the three producers' % line)
     for (name, line), d in sorted(sites.items()):
         f = pm.cls.methods[name]
         label = d['evt'] or ('table:' + ('PDU_TYPES' if 'PDU_TYPES' in d['arg'] else 'PDU_TO_EVENT' if 'PDU_TO_EVENT' in d['arg'] else 'expr'))
